@@ -15,6 +15,7 @@ func main() {
 	A := e.BobSpendsGenesisOutput(0, 5, "n1")
 	B := e.BobSpendsGenesisOutput(0, 7, "n2")
 	blk := e.Block(e.Root.Blockid, 1, "b1", A, B)
+	fmt.Println("IsValidTx for every tx + ledger.VerifyBlock:", e.Accepts(blk))
 	fmt.Println("ledger.ConfirmBlock:", e.Ledger.ConfirmBlock(blk, false).Succ)
 	fmt.Println("state.Walk(block with two spends of the same output): err =", e.State.Walk(blk.Blockid, false))
 	e.Show("after walk")
